@@ -4,6 +4,7 @@ import (
 	"bytes"
 	"context"
 	"fmt"
+	"strings"
 
 	"github.com/bmeg/grip/engine/core"
 	"github.com/bmeg/grip/gdbi"
@@ -172,6 +173,11 @@ func (kgdb *KVInterfaceGDB) BulkAdd(stream <-chan *gdbi.GraphElement) error {
 func (kgdb *KVInterfaceGDB) DelEdge(eid string) error {
 	kgdb.kvg.graphLock.Lock()
 	defer kgdb.kvg.graphLock.Unlock()
+	if strings.ContainsRune(eid, 0) {
+		// no stored edge has such an id (the key separator); as a key prefix it
+		// would name the edge "x" from "y" when asked for "x\x00y"
+		return fmt.Errorf("Edge Not Found")
+	}
 	ekeyPrefix := EdgeKeyPrefix(kgdb.graph, eid)
 	var ekey []byte
 	kgdb.kvg.kv.View(func(it kvi.KVIterator) error {
@@ -618,6 +624,9 @@ func (kgdb *KVInterfaceGDB) GetInEdgeChannel(ctx context.Context, reqChan chan g
 
 // GetEdge loads an edge given an id. It returns nil if not found
 func (kgdb *KVInterfaceGDB) GetEdge(id string, loadProp bool) *gdbi.Edge {
+	if strings.ContainsRune(id, 0) {
+		return nil // see DelEdge
+	}
 	ekeyPrefix := EdgeKeyPrefix(kgdb.graph, id)
 
 	var e *gdbi.Edge
